@@ -149,7 +149,7 @@ def build(unit, strict=True, mutate=None, pid=None, degrade=(), extras=()):
     b = Built(); b.template = t
     chunks = ["// GENERATED by /verif/vf from /repo working tree + units/%s.rs -- do not edit\nuse vstd::prelude::*;\nverus! {\nglobal size_of usize == 8;\n" % unit + STD_PRELUDE]
     b.ranges.append({"start": 1, "end": 5 + STD_PRELUDE.count("\n"), "label": "<header>", "real": False})
-    rules = ["vis", "static", "attr", "constfold", "cratepath", "asserteq"] + t.meta["rewrite"]
+    rules = ["cfg", "vis", "static", "attr", "constfold", "cratepath", "asserteq"] + t.meta["rewrite"]
     for s in t.sections:
         if s.kind == "spec":
             _emit(b, chunks, "\n".join(s.lines) + "\n", "<spec:%s@%d>" % (unit, s.lineno), False)
